@@ -168,6 +168,8 @@ class simplify_chained_calls(FuncADLNodeTransformer):
         source = args[0]
         func_f = args[1]
         assert isinstance(func_f, ast.Lambda)
+        # g ends up inside f: f's argument must not capture a name that is free in g
+        func_f = make_args_unique(func_f)
         func_g = selection
 
         lambda_select = lambda_body_replace(
@@ -241,6 +243,8 @@ class simplify_chained_calls(FuncADLNodeTransformer):
         seq = args[0]
         func_f = args[1]
         assert isinstance(func_f, ast.Lambda)
+        # g ends up inside f: f's argument must not capture a name that is free in g
+        func_f = make_args_unique(func_f)
         func_g = selection
 
         captured_arg = func_f.args.args[0].arg
@@ -335,6 +339,8 @@ class simplify_chained_calls(FuncADLNodeTransformer):
         seq = args[0]
         func_f = args[1]
         assert isinstance(func_f, ast.Lambda)
+        # g ends up inside f: f's argument must not capture a name that is free in g
+        func_f = make_args_unique(func_f)
 
         func_g = filter
         lambda_where = lambda_body_replace(
@@ -426,15 +432,38 @@ class simplify_chained_calls(FuncADLNodeTransformer):
         """
         if type(call_node.func) is ast.Lambda:
             arg_asts = [self.visit(a) for a in call_node.args]
+            kw_asts = [(k.arg, self.visit(k.value)) for k in call_node.keywords]
             with stack_frame(self._arg_stack):
                 for a_name, arg in zip(call_node.func.args.args, arg_asts):
                     self._arg_stack.define_name(a_name.arg, arg)
+                for k_name, arg in kw_asts:
+                    self._arg_stack.define_name(k_name, arg)
                 # Now, evaluate the expression, and then lift it.
                 return self.visit(call_node.func.body)
         elif _is_method_call_on_first(call_node):
             return self.select_method_call_on_first(call_node)
         else:
             return FuncADLNodeTransformer.visit_Call(self, call_node)
+
+    def visit_Lambda(self, node: ast.Lambda):
+        """A lambda's parameters hide anything of the same name we are substituting, and
+        must not capture a free name of something we substitute into its body.
+        """
+        substituted_names = {
+            n.id
+            for frame in self._arg_stack._arg_transformer
+            for v in frame.values()
+            for n in ast.walk(v)
+            if isinstance(n, ast.Name)
+        }
+        new_args = copy.copy(node.args)
+        new_args.args = []
+        with stack_frame(self._arg_stack):
+            for a in node.args.args:
+                n = arg_name() if a.arg in substituted_names else a.arg
+                self._arg_stack.define_name(a.arg, ast.Name(n, ast.Load()))
+                new_args.args.append(ast.arg(arg=n, annotation=None))
+            return ast.Lambda(new_args, self.visit(node.body))
 
     def visit_Subscript_Tuple(self, v: ast.Tuple, s: ast.Constant):
         """
